@@ -39,6 +39,27 @@ def body_total(s, ctxname):
 
 FAULT_CHARS = '{}$'
 
+_SK = dict((n, k) for n, k in SKELETONS_S + SKELETONS_D)
+
+
+FULL = dict((n, k.replace('?', 'x')) for n, k in _SK.items())
+
+
+def is_trunc(s, skname):
+    """s = a proper or improper prefix of the filled skeleton, with its last character free."""
+    f = FULL[skname]
+    n = len(s)
+    if n < 1 or n > len(f) + 1:
+        return False
+    for i in range(n - 1):
+        if s[i] != f[i]:
+            return False
+    return True
+
+
+def body_trunc(s, ctxname):
+    return strict_outcome(s, ctxname) == 'err'
+
 
 def body_fault(s, ctxname, i):
     """s = well-formed skeleton with one extra character at index i; if that character is an unmatched
@@ -125,7 +146,7 @@ def conditions(tier):
         for nm, sk0 in lst:
             variants = hole_variants(sk0, 2)
             if quick:
-                variants = variants[:1]
+                variants = hole_variants(sk0, 1)[:2]
             else:
                 variants = variants + ([('full', sk0)] if len(variants) > 1 else [])
             for tag, sk in variants:
@@ -133,10 +154,18 @@ def conditions(tier):
                                   timeout=T, cost=3, twin=False,
                                   smoke=[dict(s=skel_fill(sk)), dict(s=skel_fill(sk, '}')), dict(s=skel_fill(sk, '$'))],
                                   descr='skeleton %r (? = any character)' % sk))
+    # (2b) every truncation of the filled skeletons, followed by one free character (end-of-input handling)
+    tr_s = SKELETONS_S if not quick else [x for x in SKELETONS_S if x[0] in (
+        'b_full', 'e_full', 'g_two', 'r_paren', 'v_bar', 'nl_star', 'env_F', 'env_V', 'math_p', 'cmt_arg')]
+    for ctxn, lst in (('S', tr_s), ('D', SKELETONS_D)):
+        for nm, sk0 in lst:
+            conds.append(Cond('trunc_%s_%s' % (ctxn, nm), 's: str', ['is_trunc(s, %r)' % nm], 'body_trunc(s, %r)' % ctxn,
+                              timeout=T, cost=4, smoke=[dict(s=sk0.replace('?', 'x')[:k]) for k in range(1, len(sk0))],
+                              descr='all prefixes of %r, each also followed by one free character' % sk0.replace('?', 'x')))
     # (3) single structural fault at every token boundary of well-formed documents
     for nm, base in FAULT_BASES:
         for k, sk, idx in fault_variants(base):
-            if quick and (k % 3 != (len(nm) % 3)):
+            if quick and (k % 4 != (len(nm) % 4)):
                 continue
             conds.append(Cond('fault_%s_b%d' % (nm, k), 's: str', fault_pre(sk), "body_fault(s, 'S', %d)" % idx,
                               timeout=T, smoke=[dict(s=sk.replace('?', '7').replace('!', c)) for c in '{}$x'],
@@ -161,7 +190,7 @@ META = dict(
                'LatexTokenReader (all impl_* methods)', 'LineNumbersCalculator'],
     bounds=dict(quick='every Unicode string of length <= 3 under CTX_S, <= 2 under CTX_S+unknown fallbacks and the default '
                       'context; 19 pinned skeletons with 2-4 free one-character holes; a free character inserted at every '
-                      'third token boundary of 19 well-formed base documents (holes = any digit)',
+                      'fourth token boundary of 19 well-formed base documents (holes = any digit)',
                 thorough='length <= 4 (CTX_S, CTX_SU), <= 3 default context; all 51 skeletons; every token boundary of the 19 '
                          'base documents with a free character and with each of 7 multi-character structural tokens'),
     stubs=['logging disabled', 'step budget on LatexTokenReader.peek_token (non-termination is reported as violation)'],
